@@ -813,8 +813,16 @@ func (fc *funcConverter) convertBlock(astFunc *AstFunc, ssaBlock *ssa.BasicBlock
 				}
 			}
 		case *ssa.Phi:
+			// All phis of a block take their values at once when the block is entered,
+			// reading what was current at the end of the predecessor. Assigning the phi's
+			// variable in the predecessor would clobber a value that another phi of
+			// the same block still reads, like "a, b = b, a" in a loop, or that is still
+			// used along another edge out of the predecessor. So the predecessor only
+			// fills a staging variable, which is copied over at the start of this block.
 			phiName := fc.getVarName(instr)
+			incomingName := phiName + "_in"
 			astFunc.Vars[phiName] = instr.Type()
+			astFunc.Vars[incomingName] = instr.Type()
 
 			for predIdx, edge := range instr.Edges {
 				edgeExpr, err := fc.convertSsaValue(edge)
@@ -823,8 +831,9 @@ func (fc *funcConverter) convertBlock(astFunc *AstFunc, ssaBlock *ssa.BasicBlock
 				}
 
 				blockIdx := ssaBlock.Preds[predIdx].Index
-				astFunc.Blocks[blockIdx].Phi = append(astFunc.Blocks[blockIdx].Phi, ah.AssignStmt(ast.NewIdent(phiName), edgeExpr))
+				astFunc.Blocks[blockIdx].Phi = append(astFunc.Blocks[blockIdx].Phi, ah.AssignStmt(ast.NewIdent(incomingName), edgeExpr))
 			}
+			stmt = ah.AssignStmt(ast.NewIdent(phiName), ast.NewIdent(incomingName))
 		case *ssa.Range:
 			xExpr, err := fc.convertSsaValue(instr.X)
 			if err != nil {
